@@ -32,7 +32,7 @@ NA = {
  "C46": "range algebra preserves key sets: pure function of range lists; exhaustive small-domain enumeration would be model checking, not this family",
  "C47": "indexed sets behave like sets: sequential container; an operation sequence with no schedule or fault is a pure function of its input",
  "C49": "closest-name suggestion: pure function of (name, candidates)",
- "C50": "OUTFILE / LOAD DATA round-trip: file I/O exists but has no seam, and the property quantifies over rows and options, not over I/O faults",
+ "C50": "OUTFILE / LOAD DATA round-trip: a pure function of (rows, field / enclosure / escape / line options); the only stream in it (bufio.Scanner over a file, or over the LoadInfile seam for LOCAL) hands the split function whole lines whatever the chunking, and the property does not speak about I/O faults. A probe on the unchanged tree shows the round trip already fails without any fault or schedule (a value holding the enclosure character, a backslash or a newline is written unescaped / cannot be re-read), i.e. it is decided by input generation alone, which is not this technique",
  "C52": "geometry round-trips: pure functions of values (and the SRID table is the emptied file)",
 }
 
